@@ -643,6 +643,11 @@ func (c *Conn) handleCall(ctx context.Context, call rpccp.Call, releaseCall capn
 		return nil
 	case rpccp.MessageTarget_Which_promisedAnswer:
 		tgtAns := c.answers[p.target.promisedAnswer]
+		if tgtAns == ans {
+			// A call pipelined on its own answer: the entry was
+			// inserted just above and has nothing to pipeline on.
+			tgtAns = nil
+		}
 		if tgtAns == nil || tgtAns.flags&finishReceived != 0 {
 			ans.ret = rpccp.Return{}
 			ans.sendMsg = nil
